@@ -3,6 +3,7 @@
 package txmgr
 
 import (
+	"encoding/binary"
 	"bytes"
 
 	"github.com/massnetorg/mass-core/blockchain"
@@ -26,7 +27,25 @@ func vStakingScript(sh, frozen []byte) []byte {
 // spending it: the history shows it withdrawn, still exactly once. b2 is reorganised away (Rollback): it is
 // shown as not withdrawn again and the coin is unspent. b1 is reorganised away: the deposit leaves the mined
 // history and the coin is no mined coin any more.
-func VerifC10StakingLifecycle() {
+func VerifC10StakingLifecycle() { vStakingLifecycle(false) }
+
+// VerifC12StakingIssuedLifecycle: the same history for a staking-form address that was issued by a new-address
+// request before (PutNewAddress wrote its record, unused): when the deposit's block is reorganised away the
+// address is still listed, as unused.
+func VerifC12StakingIssuedLifecycle() { vStakingLifecycle(true) }
+
+// vUsedAddresses: the number of address records marked used (height of a first payment recorded)
+func vUsedAddresses(s *vStores) int {
+	n := 0
+	for _, e := range s.a.Ents {
+		if readAddressHeight(e.V) > 0 {
+			n++
+		}
+	}
+	return n
+}
+
+func vStakingLifecycle(issued bool) {
 	s := verifNewStores(verifWID)
 	vTxReg, vTxIDReg, vTxIDs = nil, nil, nil
 	sh, frozen, shOut := rt.NondetBytes(32), rt.NondetBytes(8), rt.NondetBytes(32)
@@ -42,6 +61,12 @@ func VerifC10StakingLifecycle() {
 	keystore.VerifAddAddressWithHash(s.utxo.ksmgr, verifWID, ps.StdEncodeAddress(), sh)
 	keystore.VerifAddAddressWithHash(s.utxo.ksmgr, verifWID, vPk(vP2WSH(shOut)).StdEncodeAddress(), shOut)
 
+	if issued {
+		err := mwdb.Update(s.db, func(dbtx mwdb.DBTransaction) error {
+			return s.utxo.PutNewAddress(dbtx, verifWID, ps.SecondEncodeAddress(), massutil.AddressClassWitnessStaking)
+		})
+		rt.Assert(err == nil && len(s.a.Ents) == 1, "issued-staking-address-recorded")
+	}
 	amount := uint64(rt.NondetU32()) + 1
 	dtx := wire.NewMsgTx()
 	dtx.AddTxIn(wire.NewTxIn(&wire.OutPoint{Hash: vHash(), Index: rt.NondetU32()}, nil))
@@ -119,7 +144,7 @@ func VerifC10StakingLifecycle() {
 	setTip(b1, b2)
 	h2all, h2live := history(false), history(true)
 	rt.Assert(len(h2all) == 1 && h2all[0].txhash == D.Hash && h2all[0].withdrawn && len(h2live) == 0, "deposit-shown-withdrawn-exactly-once")
-	rt.Assert(len(s.a.Ents) == 2, "withdrawal-target-address-marked-used")
+	rt.Assert(len(s.a.Ents) == 2 && vUsedAddresses(s) == 2, "withdrawal-target-address-marked-used")
 	// 3. the withdrawal's block is reorganised away
 	err := mwdb.Update(s.db, func(dbtx mwdb.DBTransaction) error { return s.tx.Rollback(dbtx, b2.Height) })
 	rt.Assert(err == nil, "withdrawal-block-rolled-back")
@@ -128,11 +153,19 @@ func VerifC10StakingLifecycle() {
 	rt.Assert(len(h3) == 1 && h3[0].txhash == D.Hash && !h3[0].withdrawn && h3[0].blockHeight == b1.Height && len(history(false)) == 1, "deposit-not-withdrawn-again")
 	cv = s.c.Lookup(ck)
 	rt.Assert(len(cv) == 45 && cv[8]&1 == 0 && s.u.Lookup(canonicalUnspentKey(verifWID, &D.Hash, 0)) != nil, "deposit-coin-unspent-again")
-	rt.Assert(len(s.a.Ents) == 1 && readAddressHeight(s.a.Ents[0].V) == b1.Height, "only-the-staking-address-is-still-used")
+	rt.Assert(vUsedAddresses(s) == 1, "only-the-staking-address-is-still-used")
 	// 4. the deposit's block is reorganised away
 	err = mwdb.Update(s.db, func(dbtx mwdb.DBTransaction) error { return s.tx.Rollback(dbtx, b1.Height) })
 	rt.Assert(err == nil, "deposit-block-rolled-back")
-	rt.Assert(len(s.a.Ents) == 0, "staking-address-no-longer-used-once-its-first-payment-is-gone")
+	rt.Assert(vUsedAddresses(s) == 0, "staking-address-no-longer-used-once-its-first-payment-is-gone")
+	if issued {
+		listed := false
+		for _, e := range s.a.Ents {
+			listed = listed || (len(e.K) > 44 && binary.BigEndian.Uint16(e.K[42:44]) == massutil.AddressClassWitnessStaking)
+		}
+		rt.Assert(listed, "issued-staking-address-still-listed-after-its-first-deposit-is-rolled-back")
+		rt.Reach("issued")
+	}
 	rt.Assert(len(history(false)) == 0 && s.c.Lookup(ck) == nil && s.u.Lookup(canonicalUnspentKey(verifWID, &D.Hash, 0)) == nil, "deposit-left-the-confirmed-history")
 	rt.Reach("end")
 }
